@@ -65,4 +65,24 @@ theorem expanded_graph_is_cyclic :
     ((0, "sim0".toList), (0, "red".toList)) ∈ edges (expandDoc cyc) ∧ acyclicB cyc = false := by
   decide +kernel
 
+/-! ## why the conversion pre-pass must leave floats alone
+
+`convert_component_types` applies `expected_type(value)` to `str`/`int`/`bool` values only.  Were floats converted
+too, `int(2.5)` would hand the schema a proper `2`: the wrongly typed `numberProcesses: 2.5` would load with a value
+the author did not write. -/
+
+/-- `expected_type(value)` applied to a float as well (`int()` truncates) -/
+def coerceFloat : ConvKind → Val → Val
+  | .int, .float i _ => .int i
+  | .optionalInt, .float i _ => .int i
+  | _, v => v
+
+def intRule : Schema := .or [.ty [.int], .pred .isVarReference]
+
+theorem truncated_float_passes_int_rule : check intRule (coerceFloat .int (.float 2 true)) = [] := by decide
+theorem float_fails_int_rule : check intRule (.float 2 true) = [.valueInvalid] ∧
+    check intRule (.float 3 false) = [.valueInvalid] := by decide
+/-- the conversion of the model (= of the source) does not touch it -/
+theorem model_conversion_keeps_float : convert (.leaf .int) (.float 2 true) = some (.float 2 true) := rfl
+
 end St4sd.C11.Witness
